@@ -59,12 +59,21 @@ def run_shard(params, rec):
                 with common.time_limit(20):
                     out = simps[cfg](e)
             except common.CaseTimeout:
+                if rec.counters.get("overruns_reproduced_alone", 0) >= 3:
+                    # non-termination already confirmed three times in this shard: the verdict is decided,
+                    # stop here instead of running into the worker watchdog (which would lose the witnesses)
+                    rec.fail("no bounded progress", "simplification of %s exceeds 20 s (not re-run alone: "
+                             "three earlier overruns of this shard were reproduced alone)" % common.short(e),
+                             dict(expr=repr(e), config=cfg))
+                    rec.count("stopped_after_confirmed_nontermination")
+                    return
                 # re-run alone on a fresh instance before it counts
                 try:
                     with common.time_limit(40):
                         fresh(cfg)(e)
                     rec.count("overrun_not_reproduced")
                 except common.CaseTimeout:
+                    rec.count("overruns_reproduced_alone")
                     rec.fail("no bounded progress", "simplification of %s exceeds 40 s alone"
                              % common.short(e), dict(expr=repr(e), config=cfg))
                 except Exception:
